@@ -26,18 +26,25 @@ Proof. destruct a, b; simpl; congruence. Qed.
 Lemma seq_app2 a n k : seq a n ++ seq (a + n) k = seq a (n + k).
 Proof. symmetry. apply seq_app. Qed.
 
+Lemma src_good_sel m E (hi : bool) src n : src_good m E src n -> src_good m E (if hi then src else None) n.
+Proof. destruct hi; [tauto|]. intros _. exact I. Qed.
+
 Lemma buffer_set_typed_ok e cf b k p l src c m :
   pre e b c m -> btr b = Some k ->
   (p + l) * esz e k <= bsize b ->
   src_good m (buf_els e b) src l ->
   exists b' c' m' r,
-    buffer_set_typed cf b (esz e k) (p * esz e k) (p * esz e k + l * esz e k) src c = Ok (b', c', r)
+    buffer_set_typed (eshape e) cf b (esz e k) (p * esz e k) (p * esz e k + l * esz e k) src c = Ok (b', c', r)
     /\ local_ok e b c m b' c' m'.
 Proof.
   intros P T HE SG. pose proof P as [EO W M ND IN].
   destruct (typed_pre e b c m k P T) as (Hs & EL & J & SL & US & LEN & BE & ULE & NDE & INE).
   set (sz := esz e k) in *.
-  unfold buffer_set_typed.
+  unfold buffer_set_typed. fold (ehi e). fold (ehf e).
+  (* source data of elements with finaliser but without init function is refused *)
+  dif; [do 4 eexists; split; [reflexivity|]; apply pre_refl; assumption|]. clear E.
+  apply (src_good_sel m (buf_els e b) (ehi e)) in SG.
+  set (src' := if ehi e then src else None) in *. clearbody src'. clear src. rename src' into src.
   replace (p * sz + l * sz) with ((p + l) * sz) by nia.
   assert (UA : bused b - bused b mod sz = length EL * sz).
   { rewrite US, mul_mod by assumption. lia. }
@@ -56,7 +63,7 @@ Proof.
     { rewrite mul_lt_mono by assumption. unfold q in *.
       destruct (Nat.ltb_spec (p + l) (length EL)); f_equal; lia. }
     rewrite OVL.
-    destruct (fini_range sz (bsize b) E2' (S (length EL * sz)) p (map STok E1') (map STok E3' ++ J) c m)
+    destruct (fini_range (ehf e) sz (bsize b) E2' (S (length EL * sz)) p (map STok E1') (map STok E3' ++ J) c m)
       as (c1 & m1 & FL & S1 & SC1); try assumption.
     { rewrite map_length. assumption. }
     { nia. }
@@ -67,14 +74,14 @@ Proof.
     rewrite <- !app_assoc. rewrite FL. cbn [bind].
     rewrite gap_loop_done by nia. cbn [bind negb].
     (* copy / default construct [p, p+l) *)
-    set (R := map SDead E2' ++ map STok E3' ++ J).
+    set (R := map (dead (ehf e)) E2' ++ map STok E3' ++ J).
     assert (LR : length R = length E2' + length E3' + length J).
     { unfold R. rewrite !app_length, !map_length. lia. }
     assert (SRC1 : srcs_ok m1 src 0 l).
     { eapply src_good_srcs_ok; [eassumption|]. intros t Lt Dt.
       apply (st_live _ _ _ _ _ _ S1). left. split; [assumption|].
       intros H. apply Dt. rewrite EQ, !in_app_iff. tauto. }
-    destruct (copy_loop_spec cf sz (bsize b) src Hs (firstn l R) (S ((p + l) * sz)) p 0 0
+    destruct (copy_loop_spec (ehi e) cf sz (bsize b) src Hs (firstn l R) (S ((p + l) * sz)) p 0 0
                 (map STok E1') (skipn l R) c1 m1)
       as (kc & c3 & m3 & count & failed & CL & K1 & K2 & K3 & S3).
     { rewrite map_length. assumption. }
@@ -92,16 +99,16 @@ Proof.
     destruct (le_lt_dec (p + l) (length EL)) as [INS|OUT].
     + (* the whole range lies inside the used elements: |E2'| = l, the tail E3' stays *)
       assert (L2' : length E2' = l) by (unfold q in *; lia).
-      assert (FR : firstn l R = map SDead E2') by (unfold R; apply firstn_exact; rewrite map_length; assumption).
+      assert (FR : firstn l R = map (dead (ehf e)) E2') by (unfold R; apply firstn_exact; rewrite map_length; assumption).
       assert (SR : skipn l R = map STok E3' ++ J) by (unfold R; apply skipn_exact; rewrite map_length; assumption).
       rewrite FR, SR in *.
       destruct failed as [pf|].
       * (* fatal: the tail [p+l, used) is finalised, the buffer ends at the failed position *)
         destruct (K3 pf eq_refl) as [-> KL].
-        set (P3 := map STok E1' ++ map STok (seq (cnext c) kc) ++ skipn kc (map SDead E2')).
+        set (P3 := map STok E1' ++ map STok (seq (cnext c) kc) ++ skipn kc (map (dead (ehf e)) E2')).
         assert (LP3 : length P3 = p + l).
         { unfold P3. rewrite !app_length, !map_length, seq_length, skipn_length, map_length. lia. }
-        destruct (fini_range sz (bsize b) E3' (S (length EL * sz)) (p + l) P3 J c3 m3)
+        destruct (fini_range (ehf e) sz (bsize b) E3' (S (length EL * sz)) (p + l) P3 J c3 m3)
           as (c4 & m4 & FL4 & S4 & SC4); try assumption.
         { nia. }
         { nia. }
@@ -113,8 +120,8 @@ Proof.
         unfold P3 in FL4. rewrite <- !app_assoc in FL4. rewrite FL4. cbn [bind].
         do 4 eexists. split; [reflexivity|].
         pose proof (mon_step_trans _ _ _ _ _ _ _ _ _ _ S13' S4) as S14. rewrite app_nil_r in S14.
-        replace (map STok E1' ++ map STok (seq (cnext c) kc) ++ skipn kc (map SDead E2') ++ map SDead E3' ++ J)
-          with (map STok (E1' ++ seq (cnext c) kc) ++ (skipn kc (map SDead E2') ++ map SDead E3' ++ J))
+        replace (map STok E1' ++ map STok (seq (cnext c) kc) ++ skipn kc (map (dead (ehf e)) E2') ++ map (dead (ehf e)) E3' ++ J)
+          with (map STok (E1' ++ seq (cnext c) kc) ++ (skipn kc (map (dead (ehf e)) E2') ++ map (dead (ehf e)) E3' ++ J))
           by (rewrite map_app, <- app_assoc; reflexivity).
         eapply (local_ok_intro e b c m c4 m4 k EL (E2' ++ E3') (seq (cnext c) kc) (E1' ++ seq (cnext c) kc)); eauto.
         -- apply S14. intros x Hx Hn. eapply (fresh_not_old c m EL); try eassumption.
@@ -177,7 +184,7 @@ Proof.
     assert (SRC1 : srcs_ok m1 src 0 l).
     { eapply src_good_srcs_ok; [eassumption|]. intros t Lt Dt.
       apply (st_live _ _ _ _ _ _ S1). left. split; [assumption|]. intros []. }
-    destruct (copy_loop_spec cf sz (bsize b) src Hs (firstn l J1) (S ((p + l) * sz)) p 0 0
+    destruct (copy_loop_spec (ehi e) cf sz (bsize b) src Hs (firstn l J1) (S ((p + l) * sz)) p 0 0
                 (map STok (EL ++ seq (cnext c) (p - length EL))) (skipn l J1) c1 m1)
       as (kc & c3 & m3 & count & failed & CL & K1' & K2' & K3' & S3).
     { rewrite map_length, app_length, seq_length. lia. }
